@@ -170,7 +170,7 @@ class Run:
         return corr
 
 
-STATELESS = {"res"}
+STATELESS = {"res", "stream"}
 
 
 class Corr:
@@ -200,7 +200,7 @@ class Corr:
                 v = verdicts[idx] if idx < len(verdicts) else "missing-verdict"
                 idx += 1
                 self.lines += 1
-                if '"op":"reset"' in line or self.comp in STATELESS:
+                if '"op":"reset"' in line or '"op":"sreset"' in line or self.comp in STATELESS:
                     case = []
                 case.append(line)
                 h = hashlib.blake2b(line.encode(), digest_size=8).digest()
